@@ -47,6 +47,20 @@ PROPS = {
         "exhaustive": False,
         "label": "full for the receiver's commit protocol; scheduling / asynchronous clean-up by end-to-end oracle",
     },
+    "C05": {
+        "components": ["confine"],
+        "trusted_base": [KERNEL, GEN, HARNESSTB, FSNOTE,
+                         "ASSUMED (Section hypothesis root_confines in Proofs/ConfineProofs.v): Go's os.Root never resolves a name to an object outside the root; exercised, not proved, by the hostile-list matrix on this kernel and Go version",
+                         "translator tools/gen/fssites.go decides which calls count as file-system call sites (packages os, unix, syscall, renameio, ioutil, exec; methods on the root expressions rt.DestRoot, root, subRoot, parentRoot; handles parentDir/in/out/localFile; helpers symlink, newPendingFile, RootChecksum)",
+                         "linux build only (generatormknod_darwin.go uses a plain path join and is outside this check)"],
+        "assumptions": [
+            "the hand-written sender (harness/fakesender.go) speaks protocol 27 to a real library client and to a real writable daemon module over buffered in-memory pipes; a benign control list must be received completely, else the run fails",
+            "reads are observed through the block checksums the generator sends back for an escaping name (a non-empty checksum list means outside data was read)",
+        ],
+        "rule": "matrix: escape vector {.., absolute name, pre-existing relative symlink, pre-existing absolute symlink, nested .., nested pre-existing symlink, symlink sent earlier in the same list, symlink then directory of the same name in one list, daemon upload subdirectory = symlink / symlink with trailing slash / .. / nested symlink} x outside target {existing file, absent name, existing directory, file in a subdirectory, symlink} x entry {regular with new content (create temp, rename), regular with equal size+mtime (chmod/chown/chtimes only), directory, read-only directory (touch-up), symlink, fifo, socket, character device} x {-rlptgoD, + --delete} x {receiving client, writable daemon module}; --delete walks over destinations holding symlinks to outside directories; random hostile lists built from the components of those names. oracle: content+metadata snapshot (type, content, mode, mtime incl. ns, owner, rdev) of everything around the destination identical before and after, no checksum list for an escaping name. quick tier runs a third of the matrix (rotating with the seed) plus all daemon-subdirectory vectors",
+        "exhaustive": False,
+        "label": "partial: relies on os.Root confinement (assumed); the code's obligation (all destination access goes through the root) is a regenerated theorem",
+    },
     "C10": {
         "components": ["genops", "recvmeta", "ssession", "dryrun"],
         "trusted_base": [KERNEL, EXTRACT, HARNESSTB, GEN, MD4NOTE, FSNOTE,
